@@ -314,6 +314,13 @@ Definition dispatch (recur : elem -> sop -> eos -> res (option elem))
     | El e => Ok (Some e)
     | SetOp b2 o2 r2 => recur b2 o2 r2
     end in
+  let except_base := match o, base, fo with
+                     | Except, Alpha inner, Some _ | Except, Size inner, Some _ => Some inner
+                     | _, _, _ => None
+                     end in
+  match except_base with
+  | Some inner => unwrap_none inner           (* SIZE (a) EXCEPT x / FROM (a) EXCEPT x keep their base (fix 5aac876) *)
+  | None =>
   match base, fo with
   | _, Some (Alpha inner) => recur base o inner
   | Alpha inner, Some b => recur b o inner
@@ -326,6 +333,7 @@ Definition dispatch (recur : elem -> sop -> eos -> res (option elem))
   | Alpha inner, None => match o with Union => Ok None | _ => unwrap_none inner end
   | Size inner, None => match o with Union => Ok None | _ => unwrap_none inner end
   | _, _ => combine base o fo cs rc
+  end
   end.
 
 (* fold_constraint_set *)
@@ -407,6 +415,14 @@ Record constraint := { cset : eos; cext : bool }.
 
 Definition is_size_elem (e : elem) := match e with Size _ => true | _ => false end.
 
+(* set_has_size_element: one of the operands of the set is a SIZE constraint (fix c4a68ab) *)
+Fixpoint set_has_size_tail (r : eos) : bool :=
+  match r with
+  | El e => is_size_elem e
+  | SetOp b _ r' => is_size_elem b || set_has_size_tail r'
+  end.
+Definition set_has_size (b : elem) (r : eos) : bool := is_size_elem b || set_has_size_tail r.
+
 (* TryFrom<&Constraint> *)
 Definition range_of_constraint (fuel : nat) (c : constraint) : res range :=
   bind (match cset c with
@@ -415,10 +431,7 @@ Definition range_of_constraint (fuel : nat) (c : constraint) : res range :=
             bind (fold fuel b o r None true) (fun fe =>
             bind (range_of_elem fuel fe) (fun v =>
             Ok (mark_ext (trailing_marker r)
-                  (match o with
-                   | Inter => if is_size_elem b || match r with El (Size _) => true | _ => false end then set_size v else v
-                   | _ => v
-                   end))))
+                  (if set_has_size b r then set_size v else v))))
         end) (fun pv =>
   Ok (if cext c && match rmin pv, rmax pv with None, None => false | _, _ => true end
       then {| rmin := rmin pv; rmax := rmax pv; rext := true; rsize := rsize pv |} else pv)).
